@@ -26,6 +26,8 @@ def one(d):
         shutil.rmtree(tmp, ignore_errors=True)
 
 dirs = sorted(glob.glob(os.path.join(VERIF, "seeded", "*", "")))
+if sys.argv[1:]:  # optional: only the named changes (e.g. C11-S C16-S)
+    dirs = [d for d in dirs if os.path.basename(d.rstrip("/")) in sys.argv[1:]]
 with cf.ThreadPoolExecutor(max_workers=6) as ex:
     for d, viol, err in ex.map(one, dirs):
         mp = os.path.join(d, "meta.json")
